@@ -1,6 +1,371 @@
 package main
 
-// searchCases: inputs for the targets that have no Gallina model yet (stage 2); see targets2.go.
+// searchCases: hostile inputs for the stage-2 targets (targets2.go).
+//
+// Three families per target:
+//   seeds     captured valid units (from the repository's tests), unchanged
+//   mutants   a seed truncated at a random byte, with flipped bits, with a run of 16-70 zero bits or
+//             of ff bytes inserted at a random position, or with a random tail
+//   soups     a valid NAL header followed by a random "field soup": flags, small and HOSTILE ue(v)
+//             values (255, 256, 65535, 2^31, 2^32-1, 2^63, 2^64-2), fixed-width fields; written with
+//             emulation prevention so that the reader sees exactly these bits
+// plus a few fixed witnesses of DESIGN Appendix A.
+
+import (
+	"strings"
+
+	"verifharness/hx"
+)
+
+// ---------------------------------------------------------------- bit writer with emulation prevention
+type bitw struct {
+	bits []byte // one bit per element
+}
+
+func (w *bitw) put(v uint64, n int) {
+	for i := n - 1; i >= 0; i-- {
+		if i >= 64 {
+			w.bits = append(w.bits, 0)
+		} else {
+			w.bits = append(w.bits, byte(v>>uint(i)&1))
+		}
+	}
+}
+
+func (w *bitw) flag(b bool) {
+	if b {
+		w.put(1, 1)
+	} else {
+		w.put(0, 1)
+	}
+}
+
+// ue writes the Exp-Golomb code of v (v <= 2^64-2).
+func (w *bitw) ue(v uint64) {
+	x := v + 1
+	n := 0
+	for t := x; t > 1; t >>= 1 {
+		n++
+	}
+	w.put(0, n)
+	w.put(x, n+1)
+}
+
+// zeros writes k zero bits followed by a one and k arbitrary bits: a ue(v) prefix longer than 64
+func (w *bitw) longUE(r *hx.Rng, k int) {
+	w.put(0, k)
+	w.put(1, 1)
+	for i := 0; i < k; i++ {
+		w.put(r.U64()&1, 1)
+	}
+}
+
+func (w *bitw) bytes(escape bool) []byte {
+	bs := append([]byte{}, w.bits...)
+	if len(bs)%8 != 0 {
+		bs = append(bs, 1) // rbsp stop bit
+		for len(bs)%8 != 0 {
+			bs = append(bs, 0)
+		}
+	}
+	out := make([]byte, 0, len(bs)/8+8)
+	zeros := 0
+	for i := 0; i < len(bs); i += 8 {
+		var b byte
+		for j := 0; j < 8; j++ {
+			b = b<<1 | bs[i+j]
+		}
+		if escape && zeros >= 2 && b <= 3 {
+			out = append(out, 3)
+			zeros = 0
+		}
+		if b == 0 {
+			zeros++
+		} else {
+			zeros = 0
+		}
+		out = append(out, b)
+	}
+	return out
+}
+
+var hostileUE = []uint64{255, 256, 1023, 65535, 65536, 1 << 20, 1<<31 - 1, 1 << 31, 1<<32 - 2, 1<<32 - 1, 1 << 32,
+	1 << 40, 1<<63 - 1, 1 << 63, 1<<64 - 2}
+
+// soup appends nFields random fields.
+func soup(r *hx.Rng, w *bitw, nFields int, pHostile int) {
+	for i := 0; i < nFields; i++ {
+		switch k := r.Intn(100); {
+		case k < 40:
+			w.put(r.U64()&1, 1)
+		case k < 75:
+			if r.Intn(100) < pHostile {
+				if r.Intn(8) == 0 {
+					w.longUE(r, r.Range(64, 100))
+				} else {
+					w.ue(hostileUE[r.Intn(len(hostileUE))])
+				}
+			} else {
+				w.ue(uint64(r.Pick(0, 0, 0, 1, 1, 2, 3, 4, 7, 8, 15, 16, 31, 32, 63, 64, 100)))
+			}
+		case k < 85:
+			w.put(r.U64(), r.Pick(2, 3, 4, 5, 6))
+		case k < 93:
+			w.put(r.U64(), 8)
+		case k < 97:
+			w.put(r.U64(), 16)
+		default:
+			w.put(r.U64(), 32)
+		}
+	}
+}
+
+// ---------------------------------------------------------------- mutations of captured units
+func mutate(r *hx.Rng, seed []byte) []byte {
+	s := append([]byte{}, seed...)
+	switch m := r.Intn(100); {
+	case m < 5:
+	case m < 30: // truncate
+		if len(s) > 0 {
+			s = s[:r.Intn(len(s)+1)]
+		}
+	case m < 55: // bit flips
+		for i := 0; i < 1+r.Intn(4) && len(s) > 0; i++ {
+			s[r.Intn(len(s))] ^= 1 << uint(r.Intn(8))
+		}
+	case m < 70: // insert a run of zero bits (a huge Exp-Golomb prefix) at a bit position: done on bytes + shift
+		if len(s) > 1 {
+			p := r.Range(1, len(s)-1)
+			run := make([]byte, r.Range(2, 9))
+			tail := append([]byte{}, s[p:]...)
+			// keep the run free of emulation prevention: 00 00 03 00 00 03 ... would drop the 03s; use 00 00 then
+			// continue with the tail shifted by a random number of bits
+			s = append(append(s[:p:p], run...), shiftRight(tail, r.Intn(8))...)
+		}
+	case m < 80: // insert a run of ff
+		if len(s) > 0 {
+			p := r.Intn(len(s) + 1)
+			run := r.Bytes(r.Pick(1, 2, 3, 5, 9, 17, 40), []byte{0xff})
+			s = append(append(append([]byte{}, s[:p]...), run...), s[p:]...)
+		}
+	case m < 90: // random tail replaces the tail
+		if len(s) > 2 {
+			p := r.Range(1, len(s)-1)
+			s = append(s[:p:p], r.Bytes(r.Range(0, 24), nil)...)
+		}
+	default: // set one byte to an extreme
+		if len(s) > 0 {
+			s[r.Intn(len(s))] = byte(r.Pick(0, 1, 0x7f, 0x80, 0xff))
+		}
+	}
+	return s
+}
+
+func shiftRight(b []byte, k int) []byte {
+	if k == 0 || len(b) == 0 {
+		return b
+	}
+	out := make([]byte, len(b)+1)
+	for i, x := range b {
+		out[i] |= x >> uint(k)
+		out[i+1] |= x << uint(8-k)
+	}
+	return out
+}
+
+// ---------------------------------------------------------------- seeds
+var seedsOf = map[string][]string{
+	"avc.ParseSPSNALUnit": append([]string{"6742001ed3000000" + "01ffffffff", "6742001ee1", "67"}, avcSPSHex...),
+	"avc.ParsePPSNALUnit": avcPPSHex,
+	"avc.ParseSliceHeader": {"25888040ffde08e47a7bff05ab", "419a6649e10f2653022fff8700000302c8a32d32",
+		"65888040ffde08e47a7bff05ab", "01888040ffde08e47a"},
+	"avc.GetSliceTypeFromNALU": {"25888040ffde08e47a7bff05ab", "419a6649e10f2653022fff87"},
+	"avc.ParseSEINalu": {"06010e0000030000030000030002120806ff0b80", "060007810f1c0050744080",
+		"0601061b0509b80000", "060001c001061b0509b8000080", "06010f00011a00000300090c2e268a000003004080",
+		"060434b500314741393403cefffc9420fc94aefc9162fce56efc67bafc91b980", "06051000112233445566778899aabbccddeeff80"},
+	"avc.DecodeAVCDecConfRec": {"0164001effe100196764001eacd940a02ff9610000030001000003003c8f162d9601000568ebecb22cfdf8f800",
+		"0142001effe1000467420001010002684e"},
+	"hevc.ParseSPSNALUnit":  hevcSPSHex,
+	"hevc.ParsePPSNALUnit":  hevcPPSHex,
+	"hevc.ParseSliceHeader": {"2601af0940b6c2", "0201d00d8e20", "28019e0ba0", "26018f5c1be0", "4001", "02010000"},
+	"hevc.ParseSEINalu": {"4e0101071000001a0000030180", "4e01891800000300000300000300000300000300000300000300000300000300000300000300009004000003000080",
+		"4e01000a8000000300403dc017a6900105040000be05880660404198b41080", "4e018805604041" + "98b41080"},
+	"hevc.DecodeHEVCDecConfRec": {"0101600000009000000000005df000fcfdf8f800000f03a00001001840010c01ffff016000000300900000030000030078959809" +
+		"a10001002f420101016000000300900000030000030078a00502016965959a4932bc05a80808082000000300200000030321a2000100074401c172b46240"},
+	"sei.ExtractSEIData": {"010e0000030000030000030002120806ff0b80", "0007810f1c0050744080", "01061b0509b80000",
+		"0001c001061b0509b8000080", "000a8000000300403dc017a6900105040000be05880660404198b41080",
+		"891800000300000300000300000300000300000300000300000300000300000300000300009004000003000080", "ffffffffffffffff"},
+	"sei.DecodeSEIMessage":                      {"00", "-", "1a0000030180", "60404198b410", "b500314741393403cefffc9420fc94ae", "00112233445566778899aabbccddeeff40404040"},
+	"sei.DecodeTimeCodeSEI":                     {"00", "60404198b410", "-", "40", "80", "c0", "ffffffffffffffffffffffff"},
+	"sei.DecodePicTimingAvcSEIHRD":              {"1a00000309", "00011a0000090c2e268a00004080", "-", "10", "30", "50"},
+	"sei.DecodePicTimingHevcSEI":                {"071000001a00000180", "-", "ff", "0000"},
+	"sei.DecodeMasteringDisplayColourVolumeSEI": {"11223344556677889900aabbccddeeff0011223344556677", "1122"},
+	"sei.DecodeContentLightLevelInformationSEI": {"11223344", "11"},
+	"sei.DecodeUserDataRegisteredSEI":           {"b500314741393403cefffc9420fc94aefc9162fce56efc67bafc91b9", "b5", "b50031", "-"},
+	"sei.DecodeUserDataUnregisteredSEI":         {"00112233445566778899aabbccddeeff40404040", "0011", "-"},
+	"sei.ExtractCEA608sei":                      {"b500314741393403cefffc9420fc94aefc9162fce56efc67bafc91b9", "b5003147413934ff", "b500314741393403"},
+	"sei.ParseCEA608":                           {"b500314741393403cefffc9420fc94aefc9162fce56efc67bafc91b9", "b500314741393443", "b5003147413934"},
+	"aac.DecodeADTSHeader":                      {"fff15080017ffc", "fff0508001", "fff94c8001fffc0000", "0000fff15080017ffc", "ff"},
+	"aac.DecodeAudioSpecificConfig":             {"1190", "1210", "2b11", "f8f0", "0000", "ffff", "13900000"},
+	"av1.DecodeAV1CodecConfRec":                 {"81053c00", "81", "8105", "81053c000a0b0000004aabbfc377ffe701", "01053c00", "80053c00"},
+}
+
+var byteStreamSeeds = []string{
+	"0000000167640020ac0000000168e843320000016588", "00000167420001000001680000016541", "000001",
+	"00000001", "0000000109f0000000016742", "000000014001000000014201000000014401000000012601",
+	"0000010000010000010000000001", "00000000000000000000010000", "0000016700000168", "00000140010000014201000001440100000102",
+}
+
+func init() {
+	for _, t := range []string{"avc.ExtractNalusFromByteStream", "avc.ConvertByteStreamToNaluSample",
+		"avc.GetParameterSetsFromByteStream", "avc.ExtractNalusOfTypeFromByteStream",
+		"avc.GetFirstAVCVideoNALUFromByteStream", "hevc.GetParameterSetsFromByteStream",
+		"hevc.ExtractNalusOfTypeFromByteStream"} {
+		seedsOf[t] = byteStreamSeeds
+	}
+}
+
+// NAL header prefixes for the soups
+var soupPrefix = map[string][][]byte{
+	"avc.ParseSPSNALUnit":      {{0x67, 66, 0, 30}, {0x67, 100, 0, 31}, {0x67, 244, 0, 40}, {0x27, 77, 0x40, 30}, {0x67, 138, 0, 30}},
+	"avc.ParsePPSNALUnit":      {{0x68}},
+	"avc.ParseSliceHeader":     {{0x25}, {0x41}, {0x65}, {0x01}, {0x21}},
+	"avc.GetSliceTypeFromNALU": {{0x25}, {0x41}, {0x02}},
+	"hevc.ParseSPSNALUnit":     {{0x42, 0x01}},
+	"hevc.ParsePPSNALUnit":     {{0x44, 0x01}},
+	"hevc.ParseSliceHeader":    {{0x26, 0x01}, {0x02, 0x01}, {0x28, 0x01}, {0x2a, 0x01}, {0x00, 0x01}, {0x12, 0x01}},
+	"avc.ParseSEINalu":         {{0x06}},
+	"hevc.ParseSEINalu":        {{0x4e, 0x01}, {0x50, 0x01}},
+	"sei.ExtractSEIData":       {{}},
+}
+
+// hevc SPS: profile_tier_level is 12 bytes of mostly fixed-width fields before the first ue(v): the soup
+// starts after a valid 1+12 byte prologue so that the count fields are reached
+var hevcSPSPrologue = hx.UnHex("4201" + "01" + "016000000300900000030000030078")
+
+func argsFor(r *hx.Rng, name string) int {
+	switch name {
+	case "avc.ParseSPSNALUnit":
+		return r.Pick(1, 1, 1, 0)
+	case "avc.ExtractNalusOfTypeFromByteStream":
+		return r.Pick(7, 8, 5, 1)<<1 | r.Intn(2)
+	case "hevc.ExtractNalusOfTypeFromByteStream":
+		return r.Pick(32, 33, 34, 19, 1)<<1 | r.Intn(2)
+	case "avc.ParseSEINalu", "hevc.ParseSEINalu":
+		return r.Intn(6)
+	case "sei.DecodeSEIMessage":
+		return r.Pick(0, 1, 4, 5, 136, 137, 144, 6, 255)<<1 | r.Intn(2)
+	case "sei.DecodePicTimingAvcSEIHRD":
+		if r.Intn(3) == 0 {
+			return 0
+		}
+		return 1 | r.Pick(0, 7, 23, 31)<<1 | r.Pick(0, 7, 23, 31)<<6 | r.Pick(0, 5, 24, 31)<<11
+	case "sei.DecodePicTimingHevcSEI":
+		return r.Intn(16) | r.Pick(0, 7, 23, 31)<<4 | r.Pick(0, 7, 23, 31)<<9 | r.Pick(0, 7, 31)<<14 | r.Pick(0, 7, 31)<<19
+	}
+	return 0
+}
+
 func searchCases(seed uint64, n int) []tcase {
-	return nil
+	r := hx.NewRng(seed)
+	var cs []tcase
+	names := make([]string, 0, len(targets))
+	for _, t := range targets {
+		if !t.modelled {
+			names = append(names, t.name)
+		}
+	}
+	// 1. seeds unchanged, truncated at every byte (quick: every prefix of the seeds)
+	for _, name := range names {
+		for _, h := range seedsOf[name] {
+			s := hx.UnHex(h)
+			cs = append(cs, tcase{name, s, argsFor(r, name)})
+			for k := 0; k < len(s); k++ {
+				if len(s) > 64 && k%4 != 0 {
+					continue
+				}
+				cs = append(cs, tcase{name, s[:k], argsFor(r, name)})
+			}
+		}
+	}
+	// 2. mutants and soups, n rounds over all targets
+	per := n / 40
+	if per < 8 {
+		per = 8
+	}
+	for _, name := range names {
+		seeds := seedsOf[name]
+		for i := 0; i < per; i++ {
+			var in []byte
+			if name == "avc.ParsePSAndSlice" || name == "hevc.ParsePSAndSlice" {
+				cs = append(cs, tcase{name, genPipeline(r, name[:strings.Index(name, ".")]), 0})
+				continue
+			}
+			pre, hasSoup := soupPrefix[name]
+			if hasSoup && (len(seeds) == 0 || r.Intn(2) == 0) {
+				w := &bitw{}
+				p := pre[r.Intn(len(pre))]
+				if name == "hevc.ParseSPSNALUnit" && r.Intn(4) != 0 {
+					p = hevcSPSPrologue
+				}
+				soup(r, w, r.Range(3, 60), r.Pick(3, 10, 25))
+				in = append(append([]byte{}, p...), w.bytes(true)...)
+				if r.Intn(4) == 0 && len(in) > len(p) {
+					in = in[:r.Range(len(p), len(in))]
+				}
+			} else if len(seeds) > 0 {
+				in = mutate(r, hx.UnHex(seeds[r.Intn(len(seeds))]))
+			} else {
+				in = r.Bytes(r.Range(0, 40), nil)
+			}
+			cs = append(cs, tcase{name, in, argsFor(r, name)})
+		}
+	}
+	// 3. raw short inputs for everything: empty, one byte, a few random bytes
+	for _, name := range names {
+		for _, h := range []string{"-", "00", "ff", "0000", "ffff", "000000", "00000001", "ffffffffff"} {
+			cs = append(cs, tcase{name, hx.UnHex(h), argsFor(r, name)})
+		}
+		for i := 0; i < 6; i++ {
+			cs = append(cs, tcase{name, r.Bytes(r.Range(1, 12), nil), argsFor(r, name)})
+		}
+	}
+	return cs
+}
+
+// genUnit: a seed mutant or a soup for the given single-unit target.
+func genUnit(r *hx.Rng, name string) []byte {
+	seeds := seedsOf[name]
+	pre := soupPrefix[name]
+	if len(pre) > 0 && r.Intn(2) == 0 {
+		w := &bitw{}
+		p := pre[r.Intn(len(pre))]
+		if name == "hevc.ParseSPSNALUnit" && r.Intn(4) != 0 {
+			p = hevcSPSPrologue
+		}
+		soup(r, w, r.Range(3, 60), r.Pick(3, 10, 25))
+		return append(append([]byte{}, p...), w.bytes(true)...)
+	}
+	s := hx.UnHex(seeds[r.Intn(len(seeds))])
+	if r.Intn(3) == 0 {
+		return s
+	}
+	return mutate(r, s)
+}
+
+// genPipeline: len SPS len PPS slice, each part valid, mutated or a soup (ids are mostly 0 so that
+// the slice finds the hostile parameter sets).
+func genPipeline(r *hx.Rng, codec string) []byte {
+	clip := func(b []byte) []byte {
+		if len(b) > 255 {
+			b = b[:255]
+		}
+		return b
+	}
+	sps := clip(genUnit(r, codec+".ParseSPSNALUnit"))
+	pps := clip(genUnit(r, codec+".ParsePPSNALUnit"))
+	sl := genUnit(r, codec+".ParseSliceHeader")
+	out := append([]byte{byte(len(sps))}, sps...)
+	out = append(append(out, byte(len(pps))), pps...)
+	return append(out, sl...)
 }
